@@ -1,6 +1,6 @@
 (** C04 — LR(1) conflicts are reported exactly when the grammar is not LR(1). *)
 From Coq Require Import List Arith Bool.
-From Gocc Require Import LR.Parse LR.Validate LR.Canonical LR.CanonicalProofs.
+From Gocc Require Import LR.Parse LR.Validate LR.Canonical LR.CanonicalProofs LR.Gen LR.GenProofs LR.GenAuto LR.GenAutoProofs.
 Import ListNotations.
 
 (** SPECIFICATION (Canonical.v, no tables involved): [CI g gamma] is the Dragon-book canonical LR(1) item set
@@ -43,3 +43,24 @@ Print Assumptions C04_conflict_free_never_reported.
 
 (** The exit status (non-zero without -a when n > 0; zero with -a; non-zero in both modes on refusal) is a
     three-line function of [gocc_reports] in main.go; it is checked against the real binary on every run. *)
+
+(** For EVERY grammar, through the model of the generator (LR/Gen.v, LR/GenAuto.v; compared with gocc on every run, exit
+    status included): the status the syntax part decides is zero exactly when, without -a, the canonical LR(1)
+    collection has no conflict and, with -a, accepting competes with nothing.  ([gocc_exit] = 1 for reported
+    conflicts without -a, 2 for the refusal, the Go panic.) *)
+Theorem C04_every_grammar_exit_status : forall g nn ntm symbols la_order p_acts terr fuel auto,
+  gen_wf g nn ntm symbols la_order terr = true ->
+  2 ^ length (item_universe g la_order) < fuel ->
+  (gocc_exit g nn ntm symbols la_order p_acts terr auto fuel = Some 0 <->
+   (if auto then ~ canonical_accept_conflict g else ~ canonical_conflict g)).
+Proof. intros. now apply gocc_exit_zero_iff. Qed.
+Print Assumptions C04_every_grammar_exit_status.
+
+(** the generator in mode -a always ends, with resolved tables or with the refusal *)
+Theorem C04_every_grammar_generator_total : forall g nn ntm symbols la_order p_acts terr fuel,
+  gen_wf g nn ntm symbols la_order terr = true ->
+  2 ^ length (item_universe g la_order) < fuel ->
+  (exists tb an tr n, gen_run_auto g nn ntm symbols la_order p_acts terr fuel = AutoOk tb an tr n) \/
+  (exists an tr, gen_run_auto g nn ntm symbols la_order p_acts terr fuel = AutoRefused an tr).
+Proof. intros. now apply gen_run_auto_total. Qed.
+Print Assumptions C04_every_grammar_generator_total.
